@@ -142,6 +142,9 @@ func (e *Engine) countObligation(h string, trivial bool) {
 func (e *Engine) RunHarness(pkgPath, name string) (*HarnessResult, error) {
 	fn := e.P.lookupFunc(pkgPath, name)
 	if fn == nil {
+		if len(e.P.dropped) > 0 {
+			return nil, fmt.Errorf("harness %s.%s does not build against the tree (harness files left out: %s)", pkgPath, name, strings.Join(e.P.dropped, ", "))
+		}
 		return nil, fmt.Errorf("harness %s.%s not found", pkgPath, name)
 	}
 	res := &HarnessResult{Name: name, Aborts: map[string]int{}, Unwinds: map[string]int{}, Unknowns: map[string]int{},
